@@ -101,20 +101,35 @@ def run(seed, tier, driver):
     words += [struct.pack('!I', r.getrandbits(32)) for _ in range(8)]
     triples = [struct.pack('!III', a, b, c) for a, b, c in ((0, 0, 0), (1, 2, 3), (2 ** 32 - 1, 2 ** 31, 2 ** 31 - 1), (65001, 0, 2 ** 32 - 1))]
     triples += [struct.pack('!III', r.getrandbits(32), r.getrandbits(32), r.getrandbits(32)) for _ in range(4)]
-    for code, pool, name in ((8, words, 'communities'), (10, words, 'cluster_list'), (32, triples, 'large_communities')):
+    # extended communities: kinds the decoder renders as text and kinds it has no decoder for (reported by type and value),
+    # the same unknown type several times - in one list and across lists (what was decoded earlier must not matter)
+    exts = [bytes.fromhex(h) for h in ('0002fde900000064', '010201020304000a', '0202000100000007', '0003fde900000001', '030b000000000005',
+                                       '030c000000000008', '8006000000000000', '800600004a7a0000', '000500000000002a', '000500000000002b',
+                                       '0306aabbccddeeff', '8001000000000001', '8001000000000002', '4305000000000009', '9999010203040506')]
+    for code, pool, name in ((8, words, 'communities'), (10, words, 'cluster_list'), (32, triples, 'large_communities'),
+                             (16, exts, 'ext_communities')):
         lists = [b''] + pool + [b''.join(r.sample(pool, k)) for k in (2, 3, 5) for _ in range(6)]
         pairs = list(itertools.product(lists, lists))
         if tier == 'quick':
             pairs = r.sample(pairs, min(1000, len(pairs)))
         for a, b in pairs:
-            da, db, dab = attr_value(a, code), attr_value(b, code), attr_value(a + b, code)
+            if code == 16:
+                import impl_xc as X
+
+                def dec16(v):
+                    d = X.ext_parse(v)
+                    return ('ok', [x if isinstance(x, str) else jdump(x) for x in d['ok']]) if 'ok' in d else ('bad', d)
+                da, db, dab = dec16(a), dec16(b), dec16(a + b)
+            else:
+                da, db, dab = attr_value(a, code), attr_value(b, code), attr_value(a + b, code)
             res.stats.case((name, (a + b).hex()), sample={name: (a + b).hex(), 'impl': dab})
             res.stats.hit('kind_' + name)
             if da[0] != 'ok' or db[0] != 'ok' or dab[0] != 'ok' or dab[1] != da[1] + db[1]:
                 res.fail('C15', '%s: decode(a‖b) != decode(a) + decode(b)' % name,
                          {'code': code, 'a': a.hex(), 'b': b.hex(), 'decoded': [da, db, dab]}, key=name)
-            model_reqs.append(({'op': 'upd.parse', 'hex': _body(attrs=_attr_blob(FLAGS[code], code, a + b, ext=len(a + b) > 255)).hex()},
-                               None, 'Update.parse(' + name + ')'))
+            if code != 16:
+                model_reqs.append(({'op': 'upd.parse', 'hex': _body(attrs=_attr_blob(FLAGS[code], code, a + b, ext=len(a + b) > 255)).hex()},
+                                   None, 'Update.parse(' + name + ')'))
 
     # ---------------------------------------------------------------- AS_PATH segments (both AS widths, AS4_PATH)
     for asn4, code in ((False, 2), (True, 2), (False, 17)):
